@@ -1,10 +1,11 @@
 #!/bin/bash
-# seedmatrix.sh <outfile> <seed ids...> : run all 20 quick checks against each seeded worktree (/tmp/seedwt/<id>)
-out=$1; shift
+# seedmatrix.sh <outfile> <worktree-root> <seed ids...> : run all 20 quick checks against each seeded worktree (<root>/<id>)
+out=$1; root=$2; shift; shift
+mkdir -p /tmp/seedmatrix_logs
 for s in "$@"; do
   line="$s:"
   for i in $(seq -w 1 20); do
-    VERIF_REPO=/tmp/seedwt/$s VERIF_RIDEALONG=0 VERIF_NO_EVIDENCE=1 VERIF_JOBS=4 ./vcheck C$i --tier quick > /tmp/seedout/matrix_$s_C$i.log 2>&1; code=$?
+    VERIF_REPO=$root/$s VERIF_RIDEALONG=0 VERIF_NO_EVIDENCE=1 VERIF_JOBS=${VERIF_JOBS:-4} ./vcheck C$i --tier quick > /tmp/seedmatrix_logs/$(basename $root)_${s}_C$i.log 2>&1; code=$?
     if [ $code -eq 1 ]; then line="$line C$i"; elif [ $code -eq 2 ]; then line="$line (C$i:inconclusive)"; fi
   done
   echo "$line" >> $out
